@@ -57,23 +57,29 @@ def renderKind : Kind → String | .P => "P" | .N => "N"
 
 /-- conf = `<version hex>:<products>`; products = `_` or `<product hex>=<rules>` joined by `&` -/
 def parseConf (s : String) : Option Conf :=
-  match s.splitOn "@" with
-  | [v, ps] => do
-    let v ← bytesOfHex v
-    let ps ← (if ps == "_" then some [] else (ps.splitOn "&").mapM fun x =>
+  let parseProducts := fun (ps : String) => (if ps == "_" then some [] else (ps.splitOn "&").mapM fun x =>
       match x.splitOn "=" with
       | [p, rs] => do
         let p ← bytesOfHex p
         let rs ← parseRules rs
         some (p, rs)
       | _ => none)
+  match s.splitOn "@" with
+  | [v, ps] => do
+    let v ← bytesOfHex v
+    let ps ← parseProducts ps
     some { version := v, products := ps }
+  | [flag, v, ps] => do    -- rule FILE: <ok|garbage|nover|nocfg|badcond>@<version hex>@<products>
+    let v ← bytesOfHex v
+    let ps ← parseProducts ps
+    some { version := (if flag == "nover" then [] else v), products := ps, fileOk := flag == "ok" || flag == "nover" }
   | _ => none
 
 /-- `corsh c=<conf>~<conf>…;p=<product hex>;m=…;o=…;a=…;b=…;h=…` -/
 def runHistory (op impl : String) : Ans :=
   let bad : Ans := { model := "bad-op", verdict := "skip" }
-  match ((op.drop 6).toString.splitOn ";") with
+  let files := op.startsWith "corsf "
+  match ((op.drop 6).toString.splitOn ";").take 7 with
   | [c, p, m, o, a, b, h] =>
     match (kv c "c").bind (fun s => (s.splitOn "~").mapM parseConf), (kv p "p").bind bytesOfHex,
           (kv m "m").bind bytesOfHex, (kv o "o").bind bytesOfHex, (kv a "a").bind bytesOfHex,
@@ -81,30 +87,36 @@ def runHistory (op impl : String) : Ans :=
     | some cs, some product, some m, some o, some a, some backend, some acrh =>
       let req : Req := { method := m, origin := o, acrm := a, acrh := acrh }
       let (k, hd) := handleH cs product req backend
-      let model := renderKind k ++ ";" ++ renderHdr hd
+      let loads := if files then String.ofList (cs.map fun c => if confOk c then '1' else '0') ++ "|" else ""
+      let model := loads ++ renderKind k ++ ";" ++ renderHdr hd
+      let (loadsOk, impl) := if files then
+          (match impl.splitOn "|" with
+           | l :: rest => (l ++ "|" == loads, "|".intercalate rest)
+           | [] => (false, impl))
+        else (true, impl)
       -- the oracle is the single-configuration oracle, evaluated under the configuration in force
       let (hasRules, rules) := match rulesInForce cs product with
         | some rs => (true, rs)
         | none => (false, [])
       let everHad := cs.any fun c => confOk c && (lookup c.products product).isSome
-      let tags := ["hist", "confs" ++ toString cs.length] ++
+      let tags := [if files then "files" else "hist", "confs" ++ toString cs.length] ++
         (if cs.any (fun c => !confOk c) then ["rejected-conf"] else []) ++
         (if everHad && !hasRules then ["product-removed"] else []) ++
         (if hasRules then ["nt"] else [])
       match parseResult impl with
       | none => { model := model, verdict := "FAIL:unparsable-result", tags := tags }
       | some (ki, hi) =>
-        let v := verdict hasRules rules req backend ki hi
+        let v := if !loadsOk then "FAIL:loader-verdict" else verdict hasRules rules req backend ki hi
         -- a failure that would not be one under an EARLIER configuration's rules is stale state
         let v := if v.startsWith "FAIL:" && v != "FAIL:vary-absent-when-not-granted" && v != "FAIL:star-with-credentials" &&
-                    cs.length > 1 then "FAIL:stale-conf-" ++ (v.drop 5).toString else v
+                    v != "FAIL:loader-verdict" && cs.length > 1 then "FAIL:stale-conf-" ++ (v.drop 5).toString else v
         { model := model, verdict := v, tags := tags }
     | _, _, _, _, _, _, _ => bad
   | _ => bad
 
 def run (op impl : String) : Ans :=
   let bad : Ans := { model := "bad-op", verdict := "skip" }
-  if op.startsWith "corsh " then runHistory op impl else
+  if op.startsWith "corsh " || op.startsWith "corsf " then runHistory op impl else
   if !op.startsWith "cors " then bad else
   match ((op.drop 5).toString.splitOn ";").take 6 with
   | [hr, m, o, a, b, r] =>
